@@ -90,3 +90,54 @@ def ProjReg.step (r : ProjReg) : ProjOp → ProjReg
 def ProjReg.run (r : ProjReg) (ops : List ProjOp) : ProjReg := ops.foldl ProjReg.step r
 
 end Eos.Keyed
+
+/-! The "parking" of direct ship-domain affector specs in `affection.py` for one fit: specs wait under the fit key in
+    `__affectors_item_awaiting` while no ship is registered and sit under the ship in `__affectors_item_active` while
+    one is (`__get_local_affector_storages_ship`, `__activate_special_affector_specs`,
+    `__deactivate_special_affector_specs`).  The fit is key 0 of the awaiting store. -/
+namespace Eos.Keyed
+
+structure AffReg where
+  ship : Option Nat := none
+  awaiting : Store := []
+  active : Store := []
+
+/-- `register_local_affector_spec` of an item-filter / ship-domain spec -/
+def AffReg.regSpec (r : AffReg) (x : Nat) : AffReg :=
+  match r.ship with
+  | some s => { r with active := addEntry r.active s x }
+  | none => { r with awaiting := addEntry r.awaiting 0 x }
+/-- `unregister_local_affector_spec` -/
+def AffReg.unregSpec (r : AffReg) (x : Nat) : AffReg :=
+  match r.ship with
+  | some s => { r with active := rmEntry r.active s x }
+  | none => { r with awaiting := rmEntry r.awaiting 0 x }
+/-- `register_affectee_item(ship)`: awaiting ship-domain specs of the fit become active on it (`if awaiting_to_activate:`) -/
+def AffReg.regShip (r : AffReg) (s : Nat) : AffReg :=
+  let to := bucket r.awaiting 0
+  if to.isEmpty then { r with ship := some s }
+  else { ship := some s, awaiting := rmSet r.awaiting 0 to, active := addSet r.active s to }
+/-- `unregister_affectee_item(ship)`: its awaitable specs go back under the fit key -/
+def AffReg.unregShip (r : AffReg) : AffReg :=
+  match r.ship with
+  | none => r
+  | some s =>
+    if (keys r.active).contains s then
+      let to := bucket r.active s
+      let act := delKey r.active s
+      if to.isEmpty then { ship := none, awaiting := r.awaiting, active := act }
+      else { ship := none, awaiting := addSet r.awaiting 0 to, active := act }
+    else { r with ship := none }
+
+inductive AffOp
+  | regSpec (x : Nat) | unregSpec (x : Nat) | regShip (s : Nat) | unregShip
+
+/-- a ship is registered only when none is (the fit replaces a ship by unregistering the old one first) -/
+def AffReg.step (r : AffReg) : AffOp → AffReg
+  | .regSpec x => r.regSpec x
+  | .unregSpec x => r.unregSpec x
+  | .regShip s => if r.ship.isSome then r else r.regShip s
+  | .unregShip => r.unregShip
+def AffReg.run (r : AffReg) (ops : List AffOp) : AffReg := ops.foldl AffReg.step r
+
+end Eos.Keyed
